@@ -71,5 +71,9 @@ fn main() {
     let fixed = gen::fixed_cases();
     run_batch(&mut ctx, "fixed", fixed, true);
     gen::generated(&mut ctx);
+    ctx.count_n(
+        "mock-verify-panics-while-reporting-a-violated-gate(counted-as-unsat)",
+        run::VERIFY_REPORT_PANICS.load(std::sync::atomic::Ordering::Relaxed) as u64,
+    );
     ctx.finish();
 }
